@@ -506,7 +506,33 @@ def shock_units():
                        mapped={**common, "__keep": ("keep", kty)},
                        objects={"market": "self.simulator.id2market[order.market_id]"},
                        rewrite=stores_to_return(pick), tail="return __keep"))
-    return [fs] + ms
+    # Market.change_fundamental_price: the last three statements store the new level into the market's own series, into
+    # Fundamentals.prices and move the regeneration point (Fund.shock of the C12 / C14 models); one function per stored value
+    cf_expected = ["self._fundamental_prices[time]", "self.simulator.fundamentals.prices[self.market_id][time]",
+                   "self.simulator.fundamentals._generated_until"]
+
+    def cf_rewrite(pick):
+        def rw(fn):
+            body = [x for x in fn.body if not (isinstance(x, ast.Expr) and isinstance(x.value, ast.Constant) and isinstance(x.value.value, str))]
+            tail = body[-3:]
+            if (len(body) < 3 or not all(isinstance(x, ast.Assign) and len(x.targets) == 1 for x in tail)
+                    or [ast.unparse(x.targets[0]) for x in tail] != cf_expected):
+                raise Unsupported("the three final stores of change_fundamental_price: " +
+                                  "; ".join(ast.unparse(x)[:60] for x in body[-3:]))
+            if ast.unparse(tail[0].value) != ast.unparse(tail[1].value):
+                raise Unsupported("the market's series and Fundamentals.prices get different values")
+            for x in body[:-3]:
+                if any(isinstance(n, (ast.Subscript, ast.Attribute)) and isinstance(getattr(n, "ctx", None), ast.Store) for n in ast.walk(x)):
+                    raise Unsupported("a store before the three final ones: " + ast.unparse(x)[:80])
+            fn.body = body[:-3] + [ast.copy_location(ast.Return(value=tail[pick].value), tail[pick])]
+            return fn
+        return rw
+    cf = []
+    for pick, name, ty in ((0, "shock_level_gen", "Q"), (2, "shock_until_gen", "Z")):
+        cf.append(Unit("pams/market.py", "Market", "change_fundamental_price", name, params={"scale": ("scale", "Q")}, ret=ty,
+                       mapped={"self.get_fundamental_price(time=time)": ("cur", "Q"), "time": ("time", "Z")},
+                       objects={"time": "self.time"}, rewrite=cf_rewrite(pick)))
+    return [fs] + ms + cf
 
 
 def translate_all(repo, groups=("C15", "C19", "C03")):
